@@ -509,7 +509,7 @@ pub fn run(ctx: &RunCtx) -> PropResult {
     let rund = |c: &CrashDirCase, d: &Path| run_crashdir(c, d, &findings);
     run_replays::<CrashDirCase, _>(ctx, "crashdir", &ctx.verif_dir.join("replays").join("C06"), rund, &mut report);
     let runp = |c: &PowerCase, d: &Path| run_power(c, d, &findings);
-    run_generated(ctx, "power", ctx.tier.pick(1500, 40_000), power_strategy, runp, &sample_power, &mut report);
+    run_generated(ctx, "power", ctx.tier.pick(3000, 40_000), power_strategy, runp, &sample_power, &mut report);
     let runp = |c: &PowerCase, d: &Path| run_power(c, d, &findings);
     run_enumerated(ctx, "power-tailsweep", tail_sweep(ctx.tier == Tier::Thorough), runp, &sample_power, &mut report);
     PropResult {
